@@ -43,6 +43,12 @@ impl BytesMut {
     { unimplemented!() }
     #[verifier::external_body]
     pub fn freeze(self) -> (r: Bytes) ensures r@ == self@ { unimplemented!() }
+    #[verifier::external_body]
+    pub fn is_empty(&self) -> (r: bool) ensures r == (self@.len() == 0) { unimplemented!() }
+    #[verifier::external_body]
+    pub fn clear(&mut self) ensures final(self)@ == Seq::<u8>::empty() { unimplemented!() }
+    #[verifier::external_body]
+    pub fn split(&mut self) -> (r: BytesMut) ensures r@ == old(self)@, final(self)@ == Seq::<u8>::empty() { unimplemented!() }
     // R6: &buf[from..]  (panics if from > len)
     #[verifier::external_body]
     pub fn slice_from(&self, from: usize) -> (r: &[u8])
